@@ -284,7 +284,10 @@ theorem RInv.step {cfg : Cfg} {s s' : State} {t : Tid} {a : Act} (hx : XInv s) (
       have hsub : ∀ res' p, p ∈ preRun (deliverStack rest res') → p ∈ preRun (s.thr t) := by
         intro res' p hp; rw [e]; exact preRun_tail _ _ _ (preRun_deliverStack _ _ _ hp)
       cases res with
-      | panic => exact hr.local t [.dead] rfl (fun p => runsOf_nonrun _ (fun _ => rfl) p) rfl hdead
+      | panic =>
+        show RInv (CONC.crash s t (.fnPanic t))
+        exact hr.local t [.dead] (crash_thr ..) (fun p => by rw [crash_hist]; exact runsOf_nonrun _ (fun _ => rfl) p)
+          (crash_npend ..) hdead
       | err er => exact hr.local t _ (retDec_thr ..) (fun p => runs_retDec _ _ _ _ _ _ p) (retDec_npend ..) (hsub _)
       | ok v =>
         cases refs with
@@ -294,7 +297,10 @@ theorem RInv.step {cfg : Cfg} {s s' : State} {t : Tid} {a : Act} (hx : XInv s) (
       have hsub : ∀ res' p, p ∈ preRun (deliverStack rest res') → p ∈ preRun (s.thr t) := by
         intro res' p hp; rw [e]; exact preRun_tail _ _ _ (preRun_deliverStack _ _ _ hp)
       cases res with
-      | panic => cases h; exact hr.local t [.dead] rfl (fun p => runsOf_nonrun _ (fun _ => rfl) p) rfl hdead
+      | panic =>
+        cases h
+        exact hr.local t [.dead] (crash_thr ..) (fun p => by rw [crash_hist]; exact runsOf_nonrun _ (fun _ => rfl) p)
+          (crash_npend ..) hdead
       | err er => cases h; exact hr.local t _ (retExc_thr ..) (fun p => runs_retExc _ _ _ _ _ _ _ p) (retExc_npend ..) (hsub _)
       | ok v => cases h; exact hr.local t _ (retExc_thr ..) (fun p => runs_retExc _ _ _ _ _ _ _ p) (retExc_npend ..) (hsub _)
     · cases h
